@@ -15,7 +15,7 @@ import sys
 VERIF = os.path.dirname(os.path.dirname(os.path.abspath(__file__)))
 REPO = os.environ.get("VERIF_REPO", "/repo")
 
-# (property, name, file, old, new, what)
+# (property, name, file, old, new, what); old/new may be tuples of the same length (several sites of one change)
 MUTATIONS = [
     ("C09", "table-row-winding", "modeling/marching/table.go",
      "\t{1, 8, 3, 9, 8, 1, -1, -1, -1, -1, -1, -1, -1, -1, -1, -1},",
@@ -69,6 +69,19 @@ MUTATIONS = [
      "\tdistritized := modeling.Vector3ToInt(vert, 4)",
      "\tdistritized := modeling.Vector3ToInt(vert, 0)",
      "vertices shared inside a block by position rounded to whole cells"),
+    ("C09", "final-weld-finer-than-block-sharing", "modeling/marching/canvas.go",
+     "\t\t\tmarched := d.marchFloat1(cutoff, sectionAttribute, section)\n\t\t\tif marched.PrimitiveCount() == 0 {\n\t\t\t\t// same as MarchOnAttributeParallel: an empty surface has no\n\t\t\t\t// attribute to scale or weld\n\t\t\t\treturn marched\n\t\t\t}\n\t\t\t// Weld the block meshes while the vertices are still in canvas (cell)\n\t\t\t// units, with the precision LookupOrAdd uses inside a block. Welding\n\t\t\t// after scaling to world units (to 3 decimals) merged distinct\n\t\t\t// vertices of neighbouring edges as soon as a cell was not much\n\t\t\t// larger than 0.001 units, which pinched the surface.\n\t\t\treturn marched.\n\t\t\t\tWeldByFloat3Attribute(attribute, 4).",
+     "\t\t\tmarched := d.marchFloat1(cutoff, sectionAttribute, section)\n\t\t\tif marched.PrimitiveCount() == 0 {\n\t\t\t\treturn marched\n\t\t\t}\n\t\t\treturn marched.\n\t\t\t\tWeldByFloat3Attribute(attribute, 5).",
+     "sequential marcher welds the blocks to 5 decimals while a block shares vertices at 4 (seeded change C09-r2m2, sequential half)"),
+    ("C09", "block-sharing-coarser-than-final-weld", "modeling/marching/canvas.go",
+     "\tdistritized := modeling.Vector3ToInt(vert, 4)",
+     "\tdistritized := modeling.Vector3ToInt(vert, 3)",
+     "vertices shared inside a block at 3 decimals, blocks welded at 4"),
+    ("C09", "interpolate-from-either-end", "modeling/marching/canvas.go",
+     "\tif v2.X() < v1.X() || v2.Y() < v1.Y() || v2.Z() < v1.Z() {\n\t\tv1, v2 = v2, v1\n\t\tv1v, v2v = v2v, v1v\n\t}\n",
+     "",
+     "lattice edges interpolated from whichever end the table names (the defect repaired by c92dfdc): needs a vertex "
+     "ON a rounding step of the vertex sharing and ~1e-12 relative floating-point luck - thorough finds it in some seeds, quick rarely"),
     ("C18", "sphere-top-fan-flipped", "modeling/primitives/sphere.go",
      "\t\ttris = append(tris, 0, i1, i0)\n",
      "\t\ttris = append(tris, 0, i0, i1)\n",
@@ -109,6 +122,16 @@ MUTATIONS = [
      "\t\t\tcalculatedPositions[v1i],\n\t\t\tcalculatedPositions[i0],\n\t\t\tcalculatedPositions[i1],",
      "\t\t\tcalculatedPositions[v1i],\n\t\t\tcalculatedPositions[i1],\n\t\t\tcalculatedPositions[i0],",
      "bottom fan of the unwelded sphere wound the other way"),
+    ("C18", "welded-sphere-package-level-buffer", "modeling/primitives/sphere.go",
+     ("func UVSphere(radius float64, rows, columns int) modeling.Mesh {\n", "\tpositions := make([]vector3.Float64, 0)\n"),
+     ("var uvSpherePositions []vector3.Float64\n\nfunc UVSphere(radius float64, rows, columns int) modeling.Mesh {\n",
+      "\tpositions := uvSpherePositions[:0]\n\tdefer func() { uvSpherePositions = positions[:0] }()\n"),
+     "welded sphere builds its vertex list in a package-level buffer that the returned mesh keeps (seeded change C18-r2m1)"),
+    ("C18", "unwelded-sphere-package-level-scratch", "modeling/primitives/sphere.go",
+     ("func UVSphereUnwelded(radius float64, rows, columns int) modeling.Mesh {\n", "\tcalculatedPositions := make([]vector3.Float64, 0)\n"),
+     ("var unweldedRing []vector3.Float64\n\nfunc UVSphereUnwelded(radius float64, rows, columns int) modeling.Mesh {\n",
+      "\tcalculatedPositions := unweldedRing[:0]\n\tdefer func() { unweldedRing = calculatedPositions[:0] }()\n"),
+     "unwelded sphere computes its ring positions in a package-level scratch buffer: wrong only under concurrent calls (seeded change C18-r2m2)"),
 ]
 
 
@@ -128,11 +151,16 @@ def main():
             continue
         path = os.path.join(REPO, rel)
         src = open(path).read()
-        if src.count(old) != 1:
-            rows.append((prop, name, "NOT-APPLIED (pattern found %d times)" % src.count(old), ""))
+        olds, news = (old, new) if isinstance(old, tuple) else ((old,), (new,))
+        counts = [src.count(o) for o in olds]
+        if counts != [1] * len(olds):
+            rows.append((prop, name, "NOT-APPLIED (patterns found %s times)" % counts, ""))
             continue
         try:
-            open(path, "w").write(src.replace(old, new))
+            mutated = src
+            for o, n in zip(olds, news):
+                mutated = mutated.replace(o, n)
+            open(path, "w").write(mutated)
             p = sh([os.path.join(VERIF, "check"), prop, "--tier", "quick"], cwd=VERIF)
             sigs = sorted(set(l.split("::")[0].strip().replace("signature=", "") for l in p.stdout.splitlines()
                               if l.strip().startswith("signature=")))
